@@ -49,6 +49,18 @@ func (t *recTransport) requests() []*http.Request {
 // guard runs one operation under a watchdog: an operation that does not return within the limit
 // is abandoned (its transport starts failing) and reported as an oracle failure by the caller.
 func (t *recTransport) guard(op func(ctx context.Context)) (hung bool) {
+	if !t.guardOnce(op, 5*time.Second) {
+		return false
+	}
+	// a time-out is re-confirmed before it is reported: the same operation once more, from a
+	// clean transport state, with a three times longer limit (a loaded machine is not a wedge)
+	t.mu.Lock()
+	t.reqs, t.dead, t.runaway = nil, false, false
+	t.mu.Unlock()
+	return t.guardOnce(op, 15*time.Second)
+}
+
+func (t *recTransport) guardOnce(op func(ctx context.Context), limit time.Duration) (hung bool) {
 	ctx, cancel := context.WithCancel(context.Background())
 	defer cancel()
 	done := make(chan struct{})
@@ -59,7 +71,7 @@ func (t *recTransport) guard(op func(ctx context.Context)) (hung bool) {
 	select {
 	case <-done:
 		return false
-	case <-time.After(10 * time.Second):
+	case <-time.After(limit):
 		t.mu.Lock()
 		t.dead = true
 		t.mu.Unlock()
@@ -196,7 +208,7 @@ func opCase(base registry.Reference, op string, plain bool, in, want string) {
 	reqs, wedged := runOp(base, op, plain, in, variant)
 	if wedged {
 		wedges++
-		run.OracleFail(id, "op-hang", fmt.Sprintf("%s(%q) on %v did not return within 10 s or sent more than %d requests (%d recorded)", op, in, base, maxRequests, len(reqs)),
+		run.OracleFail(id, "op-hang", fmt.Sprintf("%s(%q) on %v did not return within the watchdog limit (5 s, re-confirmed with 15 s) or sent more than %d requests (%d recorded)", op, in, base, maxRequests, len(reqs)),
 			map[string]any{"op": "O", "kind": op, "plain": plain, "registry": base.Registry, "repository": base.Repository, "input": in, "want": want, "variant": strconv.Itoa(variant)})
 		return
 	}
@@ -378,7 +390,7 @@ func descOpCase(base registry.Reference, op string, plain bool, d, a1 string, n 
 	reqs, wedged := runDescOp(base, op, plain, d, a1, n, wrapper)
 	if wedged {
 		wedges++
-		run.OracleFail(id, "op-hang", fmt.Sprintf("%s(%q,%q,%d) on %v did not return within 10 s or sent more than %d requests (%d recorded)", op, d, a1, n, base, maxRequests, len(reqs)),
+		run.OracleFail(id, "op-hang", fmt.Sprintf("%s(%q,%q,%d) on %v did not return within the watchdog limit (5 s, re-confirmed with 15 s) or sent more than %d requests (%d recorded)", op, d, a1, n, base, maxRequests, len(reqs)),
 			map[string]any{"op": "D", "kind": op, "plain": plain, "registry": base.Registry, "repository": base.Repository, "reference": d, "input": a1, "n": strconv.Itoa(n)})
 		return
 	}
